@@ -93,6 +93,22 @@ def shapes_for_tier(tier):
     return all_shapes(4 if tier == "thorough" else 2)
 
 
+def quick_wide_shapes(first_sid):
+    """Quick tier only: every &/&mut pattern and order of 3 and of 4 captures (8 + 16 = 24 patterns) with a reduced
+    cross product: one argument count per pattern (cycling 1..4), both call syntaxes, {ret, none} alternating;
+    one body template per shape (sid % 3, so the two call syntaxes of a pattern get two different bodies)."""
+    out = []
+    sid = first_sid
+    k = 0
+    for ncap in (3, 4):
+        for caps in itertools.product([False, True], repeat=ncap):
+            for tc in (False, True):
+                out.append(Shape(caps, 1 + k % 4, (k + int(tc)) % 2 == 0, tc, sid))
+                sid += 1
+            k += 1
+    return out
+
+
 def beyond_shapes(first_sid):
     """Sample beyond the property's stated bound (thorough tier only; the theorems are unbounded): every &/&mut
     pattern of 5 and of 6 captures with 2 and with 6 arguments, with/without return type; the call syntax
